@@ -80,6 +80,15 @@ def lin_fact(fnm, n, lab, allow_assume=False):
     return (_SYM[op], str(d))
 
 
+def pass_polarity(cfg, n):
+    """Truth value of the atomic test `n` of an assert / precondition with which the assertion goes on (the
+    condition may have been decomposed: 'not', 'and'); None when neither outcome fails by itself ('or')."""
+    fails = {lab[0] for (d, lab) in cfg.succ[n.id] if isinstance(lab, tuple) and cfg.nodes[d].kind in ("raise", "except")}
+    if len(fails) != 1:
+        return None
+    return "F" in fails
+
+
 def assume_fact(fnm, n):
     """(op, poly) holding when the assert / precondition at test node n passes.  A local all of whose reaching
     definitions are the same call (e.g. extra_lease_offset re-read after the container grew) is spelt as that call."""
@@ -95,7 +104,9 @@ def assume_fact(fnm, n):
             ren[name] = vals.pop()
     nz = Normaliser(Env(None, extra=env.defs, rename=ren, depth=fnm.depth))
     e = n.ast
-    pol = True
+    pol = pass_polarity(fnm.cfg, n)
+    if pol is None:
+        return None
     while isinstance(e, ast.UnaryOp) and isinstance(e.op, ast.Not):
         e, pol = e.operand, not pol
     if not isinstance(e, ast.Compare) or len(e.ops) != 1 or type(e.ops[0]) not in _NEGOP:
@@ -157,7 +168,8 @@ def check_param_assumes(r, fn, cfg, fnm, params, what):
     for n in cfg.nodes:
         if n.kind != "test" or not n.assume:
             continue
-        f_ = cmp_poly(fnm.at(n), n.ast)
+        pol = pass_polarity(cfg, n)
+        f_ = cmp_poly(fnm.at(n), n.ast, pol) if pol is not None else None
         if f_ is None:
             continue
         op, d = f_
@@ -210,9 +222,10 @@ def stale_after(cfg, fnm, reader, changer):
     return out
 
 
-def accepts_eq(e, opname):
-    """Does the assertion `e` over the operator parameter pass for the operator b'eq'?  None = not decidable."""
-    pol = True
+def accepts_eq(e, opname, pol):
+    """Does the assertion test `e` (going on when it evaluates to `pol`) pass for the operator b'eq'?  None = not decidable."""
+    if pol is None:
+        return None
     while isinstance(e, ast.UnaryOp) and isinstance(e.op, ast.Not):
         e, pol = e.operand, not pol
     if not isinstance(e, ast.Compare) or len(e.ops) != 1:
@@ -985,9 +998,10 @@ def run(ctx: Context):
             and {attr_path(rets[0].value.left), attr_path(rets[0].value.comparators[0])} == {tps[0], tps[2]}
         r.require(ok, tc, tc.loc(), "testv_compare does not return (data == specimen)")
         if len(tps) > 1:
-            for n in tc.cfg().nodes:
+            tcfg = tc.cfg()
+            for n in tcfg.nodes:
                 if n.kind == "test" and n.assume:
-                    r.require(accepts_eq(n.ast, tps[1]) is not False, tc, tc.loc(n.ast),
+                    r.require(accepts_eq(n.ast, tps[1], pass_polarity(tcfg, n)) is not False, tc, tc.loc(n.ast),
                               "testv_compare: the assertion %s rejects the operator b'eq': every test vector fails" % src(tc, n.ast))
         for qual, empty in ((MSF + ".check_testv", False), ("storage.mutable:EmptyShare.check_testv", True)):
             fn = idx.func(qual)
